@@ -1,6 +1,6 @@
 (* C06 - DTCWT back-propagation is the adjoint: the pieces the hand-written backward passes rely on. *)
 From PW Require Import Base.Ops Base.Sum Base.Sig Base.Tensor Model.Dwt Model.Dtcwt Spec.Line Spec.DtcwtRef Proofs.QuadProofs Proofs.SymExt
-  Proofs.DwtNF Proofs.DtcwtNF Proofs.QshiftAdj Proofs.QshiftTensor Proofs.TablesProofs.
+  Proofs.DwtNF Proofs.DtcwtNF Proofs.QshiftAdj Proofs.QshiftTensor Proofs.TablesProofs Proofs.DtcwtAdj2D Proofs.DtcwtAdj1.
 
 (* FWD_J1.backward / INV_J1.backward reuse colfilter with the SAME filter: right when the filter is symmetric and odd.
    In a general commutative ring the factor 2 cannot be cancelled; over Z, Q, R it can. *)
@@ -68,3 +68,67 @@ Theorem C06_tables_revpair : qshift_revpair = true.
 Proof. exact (proj1 (proj2 (proj2 (proj2 (proj2 tables_ok))))). Qed.
 Print Assumptions C06_tables_revpair.
 
+(* ---- whole levels, 2-D, on the model of the code: the backward passes of the four Functions ----
+   dot2 h w A B n c = sum over the h x w window of A[n,c,.,.] * B[n,c,.,.];  shaped x h w g: g has the batch/channel shape of x and
+   spatial shape h x w.  Over any commutative ring in which 2 can be cancelled (Z, Q, R ...). *)
+(* FWD_J2PLUS.backward = inv_j2plus with the a and b filters exchanged is the adjoint of fwd_j2plus, for every input x and every
+   cotangent (lowpass gll and the 12 planes); read right to left it says INV_J2PLUS.backward = fwd_j2plus with the filters exchanged
+   is the adjoint of inv_j2plus (all inputs present) *)
+Theorem C06_qshift_level_adjoint :
+  forall (R:Type) (Op:Ops R) (Rth:RingOk Op),
+  (forall a b:R, rmul Op (radd Op (r1 Op) (r1 Op)) a = rmul Op (radd Op (r1 Op) (r1 Op)) b -> a = b) ->
+  forall (s:R) L (H0A H0B H1A H1B:Z->R), 2 <= L /\ L mod 2 = 0 ->
+  (forall j, 0 <= j < L -> H0B j = H0A (L-1-j)) -> (forall j, 0 <= j < L -> H1B j = H1A (L-1-j)) ->
+  forall (x gll g15r g15i g45r g45i g75r g75i g105r g105i g135r g135i g165r g165i:@ten R),
+  4 <= tH x -> tH x mod 4 = 0 -> 4 <= tW x -> tW x mod 4 = 0 -> 0 < tC x ->
+  let H2 := tH x / 2 in let W2 := tW x / 2 in let H4 := tH x / 4 in let W4 := tW x / 4 in
+  shaped x H2 W2 gll ->
+  shaped x H4 W4 g15r -> shaped x H4 W4 g15i -> shaped x H4 W4 g45r -> shaped x H4 W4 g45i ->
+  shaped x H4 W4 g75r -> shaped x H4 W4 g75i -> shaped x H4 W4 g105r -> shaped x H4 W4 g105i ->
+  shaped x H4 W4 g135r -> shaped x H4 W4 g135i -> shaped x H4 W4 g165r -> shaped x H4 W4 g165i ->
+  let gp := [g15r; g15i; g45r; g45i; g75r; g75i; g105r; g105i; g135r; g135i; g165r; g165i] in
+  is_ok (fwd_j2plus Op s x L (rev_filt L H0B) (rev_filt L H0A) L (rev_filt L H1B) (rev_filt L H1A) false) (fun r =>
+  is_ok (inv_j2plus Op s (Some gll) gp L (rev_filt L H0A) (rev_filt L H0B) L (rev_filt L H1A) (rev_filt L H1B)) (fun dx =>
+    tN dx = tN x /\ tC dx = tC x /\ tH dx = tH x /\ tW dx = tW x /\
+    forall n c, 0 <= c < tC x ->
+      radd Op (radd Op (radd Op (dot2 Op H2 W2 (fst r) gll n c)
+        (radd Op (radd Op (radd Op (dot2 Op H4 W4 (pl Op (snd r) 0 0) g15r n c) (dot2 Op H4 W4 (pl Op (snd r) 0 1) g15i n c))
+                          (dot2 Op H4 W4 (pl Op (snd r) 5 0) g165r n c)) (dot2 Op H4 W4 (pl Op (snd r) 5 1) g165i n c)))
+        (radd Op (radd Op (radd Op (dot2 Op H4 W4 (pl Op (snd r) 2 0) g75r n c) (dot2 Op H4 W4 (pl Op (snd r) 2 1) g75i n c))
+                          (dot2 Op H4 W4 (pl Op (snd r) 3 0) g105r n c)) (dot2 Op H4 W4 (pl Op (snd r) 3 1) g105i n c)))
+        (radd Op (radd Op (radd Op (dot2 Op H4 W4 (pl Op (snd r) 1 0) g45r n c) (dot2 Op H4 W4 (pl Op (snd r) 1 1) g45i n c))
+                          (dot2 Op H4 W4 (pl Op (snd r) 4 0) g135r n c)) (dot2 Op H4 W4 (pl Op (snd r) 4 1) g135i n c))
+      = dot2 Op (tH x) (tW x) x dx n c)).
+Proof. exact @qshift_level_adjoint. Qed.
+Print Assumptions C06_qshift_level_adjoint.
+
+(* FWD_J1.backward / INV_J1.backward: inv_j1 resp. fwd_j1 with the SAME symmetric odd filters *)
+Theorem C06_level1_adjoint :
+  forall (R:Type) (Op:Ops R) (Rth:RingOk Op),
+  (forall a b:R, rmul Op (radd Op (r1 Op) (r1 Op)) a = rmul Op (radd Op (r1 Op) (r1 Op)) b -> a = b) ->
+  forall (s:R) L0 L1 (h0 h1:Z->R), 1 <= L0 /\ L0 mod 2 = 1 -> 1 <= L1 /\ L1 mod 2 = 1 -> Symmetric L0 h0 -> Symmetric L1 h1 ->
+  forall (x gll g15r g15i g45r g45i g75r g75i g105r g105i g135r g135i g165r g165i:@ten R),
+  2 <= tH x -> tH x mod 2 = 0 -> 2 <= tW x -> tW x mod 2 = 0 -> 0 < tC x ->
+  let H2 := tH x / 2 in let W2 := tW x / 2 in
+  shaped x (tH x) (tW x) gll ->
+  shaped x H2 W2 g15r -> shaped x H2 W2 g15i -> shaped x H2 W2 g45r -> shaped x H2 W2 g45i ->
+  shaped x H2 W2 g75r -> shaped x H2 W2 g75i -> shaped x H2 W2 g105r -> shaped x H2 W2 g105i ->
+  shaped x H2 W2 g135r -> shaped x H2 W2 g135i -> shaped x H2 W2 g165r -> shaped x H2 W2 g165i ->
+  let gp := [g15r; g15i; g45r; g45i; g75r; g75i; g105r; g105i; g135r; g135i; g165r; g165i] in
+  is_ok (fwd_j1 Op s x L0 h0 L1 h1 false M_SYMM) (fun r =>
+  is_ok (inv_j1 Op s (Some gll) gp L0 h0 L1 h1 M_SYMM) (fun dx =>
+    shaped x (tH x) (tW x) dx /\
+    forall n c, 0 <= c < tC x ->
+      radd Op (radd Op (radd Op (dot2 Op (tH x) (tW x) (fst r) gll n c)
+        (radd Op (radd Op (radd Op (dot2 Op H2 W2 (pl Op (snd r) 0 0) g15r n c) (dot2 Op H2 W2 (pl Op (snd r) 0 1) g15i n c))
+                          (dot2 Op H2 W2 (pl Op (snd r) 5 0) g165r n c)) (dot2 Op H2 W2 (pl Op (snd r) 5 1) g165i n c)))
+        (radd Op (radd Op (radd Op (dot2 Op H2 W2 (pl Op (snd r) 2 0) g75r n c) (dot2 Op H2 W2 (pl Op (snd r) 2 1) g75i n c))
+                          (dot2 Op H2 W2 (pl Op (snd r) 3 0) g105r n c)) (dot2 Op H2 W2 (pl Op (snd r) 3 1) g105i n c)))
+        (radd Op (radd Op (radd Op (dot2 Op H2 W2 (pl Op (snd r) 1 0) g45r n c) (dot2 Op H2 W2 (pl Op (snd r) 1 1) g45i n c))
+                          (dot2 Op H2 W2 (pl Op (snd r) 4 0) g135r n c)) (dot2 Op H2 W2 (pl Op (snd r) 4 1) g135i n c))
+      = dot2 Op (tH x) (tW x) x dx n c)).
+Proof. exact @level1_adjoint. Qed.
+Print Assumptions C06_level1_adjoint.
+(* the cancellation hypothesis holds over Z *)
+Example C06_cancel2_Z : forall a b:Z, rmul ZOps (radd ZOps (r1 ZOps) (r1 ZOps)) a = rmul ZOps (radd ZOps (r1 ZOps) (r1 ZOps)) b -> a = b.
+Proof. cbn [rmul radd r1 ZOps]. intros a b H. lia. Qed.
